@@ -145,8 +145,9 @@ def run_item(item):
                     nd[mtype] = nd.get(mtype, 0) + 1
                     if nd[mtype] > 4:
                         continue
-                for op in C10.edits(exp) + [["eq"], ["hash"], ["matrix"], ["components"], ["bonded_all"], ["str"]]:
-                    hh = U.build(m).relabel_atoms(dict(mp), copy=(mode == "copy"))
+                for op in C10.edits(exp) + [["eq"], ["hash"], ["matrix"], ["components"], ["bonded_all"], ["str"], ["views_index"]]:
+                    src0 = U.build(m)
+                    hh = src0.relabel_atoms(dict(mp), copy=(mode == "copy"))
                     ff = U.build(exp)
                     ra, rf = _follow(hh, op, ff, spec_ok), _follow(ff, op, U.build(exp), spec_ok)
                     out["evals"] += 1
@@ -157,6 +158,9 @@ def run_item(item):
                     if norm(snap(hh)) != norm(snap(ff)):
                         V(f"followup-state:{op[0]}", f"after follow-up {op} the relabelled graph differs from the freshly built one in "
                           f"{diff(norm(snap(hh)), norm(snap(ff)))}", mode=mode)
+                    if mode == "copy" and norm(snap(src0)) != base:
+                        V(f"followup-changed-source:{op[0]}", f"follow-up {op} on the relabelled COPY changed the source graph in "
+                          f"{diff(norm(snap(src0)), base)}", mode=mode)
             if len(results) == 2 and results["copy"] != results["inplace"]:
                 V("copy-vs-inplace", f"copy and in-place results differ in {diff(results['copy'], results['inplace'])}")
         if not out["samples"]:
@@ -181,5 +185,23 @@ def _follow(g, op, other, spec_ok):
         return _try(lambda: sorted((a, sorted(g.bonded_to(a))) for a in g.atoms))
     if op[0] == "str":
         return _try(lambda: str(g))
+    if op[0] == "views_index":
+        # subscripting / .get on every public mapping view with present and absent keys must behave as on a fresh graph
+        def idx():
+            res = []
+            keys = list(g.atoms)[:2] + [10 ** 6, frozenset((10 ** 6, 1))] + [frozenset(b) for b in list(g.bonds)[:1]]
+            for v in ("atoms_with_attributes", "bonds_with_attributes", "neighbors", "atom_stereo", "bond_stereo", "stereo",
+                      "atom_stereo_changes", "bond_stereo_changes"):
+                if hasattr(g, v):
+                    view = getattr(g, v)
+                    for k in keys:
+                        kn = repr(sorted(k)) if isinstance(k, frozenset) else repr(k)   # order-free name of the key
+                        try:
+                            res.append((v, kn, "get", repr(view.get(k)), k in view))
+                            res.append((v, kn, "[]", repr(view[k])))
+                        except Exception as e:
+                            res.append((v, kn, type(e).__name__))
+            return res
+        return _try(idx)
     r = _try(lambda: OPS.apply_real(g, op))
     return (r[0], r[1] if r[0] == "exc" else None)
